@@ -2,6 +2,7 @@ import SignaloModel.Proofs.OwnedProofs
 import SignaloModel.Proofs.OwnedMedian
 import SignaloModel.Proofs.OwnedDeque
 import SignaloModel.Proofs.OwnedRuns
+import SignaloModel.Proofs.DequeSuffix
 /-!
 # C19 — Windowed filters drop every owned sample exactly once
 
@@ -10,6 +11,7 @@ The property theorems for C19: `#check` prints each statement, `#print axioms` i
 -/
 open SignaloModel
 
+#check @SignaloModel.Deque.taps_suffixMax_run
 #check @Registry.owned_mean_registry
 #check @Registry.owned_delay_registry
 #check @Registry.owned_convolve_registry
@@ -26,6 +28,7 @@ open SignaloModel
 #check @Registry.owned_median_registry
 #check @Registry.run_append
 
+#print axioms SignaloModel.Deque.taps_suffixMax_run
 #print axioms Registry.owned_mean_registry
 #print axioms Registry.owned_delay_registry
 #print axioms Registry.owned_convolve_registry
